@@ -32,12 +32,12 @@ func init() {
 }
 
 type c05Spec struct {
-	RootLoad int  `json:"root_load"` // index into c05Loads (0 = none)
-	AaLoad   int  `json:"aa_load"`
-	BbLoad   int  `json:"bb_load"`
-	CcLoad   int  `json:"cc_load"`
-	Reload   int  `json:"reload"` // 0 none, 1 aa:RELOAD s, 2 bb:RELOAD s, 3 bb:RELOAD t, 4 root:RELOAD s
-	RelLate  bool `json:"reload_after_map"` // RELOAD placed after the MAP lines of its node (same page) instead of before them
+	RootLoad int    `json:"root_load"` // index into c05Loads (0 = none)
+	AaLoad   int    `json:"aa_load"`
+	BbLoad   int    `json:"bb_load"`
+	CcLoad   int    `json:"cc_load"`
+	Reload   int    `json:"reload"`           // 0 none, 1 aa:RELOAD s, 2 bb:RELOAD s, 3 bb:RELOAD t, 4 root:RELOAD s
+	RelLate  bool   `json:"reload_after_map"` // RELOAD placed after the MAP lines of its node (same page) instead of before them
 	Mode     string `json:"mode"`
 	CacheSz  uint32 `json:"cache_size"`
 }
